@@ -60,7 +60,8 @@ def draw_case(data, tier):
         batch = []
     else:
         sig = gen.draw_signature(data, d, kmax=3 if d == 2 else 2, min_types=1, max_types=4, cmax=4)
-        batch = list(data.draw(st.permutations([5, 7, 3]), label="batch")[: nlead - 1])
+        big = data.draw(st.integers(0, 9), label="big_lead") == 0  # product of the leading sizes above 512 in 1 case of 10
+        batch = list(data.draw(st.permutations([23, 29, 3] if big else [5, 7, 3]), label="batch")[: nlead - 1])
     # exact symbolic state: ordered list of [type, lead shape]
     state = [[tuple(t), tuple(batch) + ((c,) if nlead > 0 else ())] for t, c in sig]
     stack = []
